@@ -1,21 +1,18 @@
-"""Which properties are claimed, with the manifest text for each. tools/mk_manifest.py writes MANIFEST.json
-from this; a property without a built check is listed under not_applicable with the reason."""
+"""Which properties are claimed. The manifest text for a claimed property lives in its harness module
+(`harness/cxx.py: REGISTRY = dict(text=, note=, technique=, design_ref=)`); tools/mk_manifest.py writes
+MANIFEST.json from this; a property without a built check is listed under not_applicable with the reason."""
+import importlib
 
 ALL = ["C%02d" % i for i in range(1, 21)]
 
-# pid -> dict(text, note, technique, design_ref)
-CLAIMED = {
-    "C18": dict(
-        text="FULL: Lean theorems (Earverif.Cursor.ops_refine, seek_spec, read_spec, tell_spec, iter_refines, "
-        "specIter_tiles) prove for every operation sequence, file size and cursor that the byte-level model of "
-        "Bw64Reader.seek/tell/read/iter_sample_blocks refines a list-plus-cursor specification; the model is tied to "
-        "the code on every run by driving the real reader and the Lean model with the same generated operation "
-        "sequences (exhaustive over a boundary alphabet up to a length bound, then random) and diffing outputs.",
-        note="Trusted: Lean kernel, hand transliteration of the reader's cursor arithmetic + correspondence harness, "
-        "BytesIO semantics as modelled. Quantifier limits: read(n>=0), iter block size >= 1 (0 hangs in the real code).",
-        technique="Lean 4 refinement proof (induction over operation sequences) + differential correspondence with the real reader",
-        design_ref="DESIGN.md section 4, C18",
-    ),
-}
+CLAIMED_IDS = ["C18"]
 
-NOT_YET = "no Lean model/correspondence built for this property yet in this session (planned in DESIGN.md section 4); not claimed rather than claimed with another technique"
+NOT_YET = ("no Lean model/correspondence built for this property yet in this session (planned in DESIGN.md "
+           "section 4); not claimed rather than claimed with another technique")
+
+
+def entry(pid):
+    return importlib.import_module("harness." + pid.lower()).REGISTRY
+
+
+CLAIMED = {pid: None for pid in CLAIMED_IDS}
